@@ -157,6 +157,8 @@ class Execution:
             base = ds.PCTStrategy(seed, depth=sc.get("pct_depth", 3), p_time=sc.get("p_time", 0.0), crash_at=crash_at)
         else:
             base = ds.RandomStrategy(seed, p_time=sc.get("p_time", 0.0), crash_at=crash_at, stick=sc.get("stick", 0.0))
+        if sc.get("slow_holder"):
+            base = ds.SlowHolderStrategy(base, sc["slow_holder"], budget=sc.get("slow_budget", 600), stall=sc.get("slow_stall", 0.5))
         if str(inv) in scripts or inv in scripts:
             return ds.ScriptedStrategy(scripts.get(str(inv), scripts.get(inv)), fallback=base), crash_at
         return base, crash_at
@@ -205,8 +207,9 @@ class Execution:
                     e._flag = True
             for item in list(ext_mid):
                 if s.steps >= item[0]:
-                    ext_mid.remove(item)
-                    self._complete_ext(item[1], item[2], item[3] if len(item) > 3 else None, mid=True)
+                    # (retried at the following steps until the operation exists and is outstanding)
+                    if self._complete_ext(item[1], item[2], item[3] if len(item) > 3 else None, mid=True):
+                        ext_mid.remove(item)
             base_on_step(s)
         strategy.on_step = on_step
         self._sched = sched
